@@ -109,6 +109,18 @@ func runC09(c *Ctx) error {
 			c.Rng.Read(s)
 			add(append(append([]byte{}, h...), s...), "suffix")
 		}
+		// near-miss headers whose missing 4-byte word re-appears after byte 24: a predicate that looks
+		// past the 24-byte window (prefix-only violation) classifies these differently from their prefix
+		for w := 0; w+4 <= 24; w += 4 {
+			miss := append([]byte{}, h...)
+			word := append([]byte{}, h[w:w+4]...)
+			copy(miss[w:w+4], []byte{0, 0, 0, 0})
+			for _, pad := range []int{0, 4, 8} {
+				sfx := append(make([]byte, pad), word...)
+				add(append(append([]byte{}, miss...), sfx...), "suffix")
+				add(append(append(append([]byte{}, miss...), sfx...), h...), "suffix")
+			}
+		}
 	}
 	nr := c.N(20000, 2000000)
 	for i := 0; i < nr; i++ {
